@@ -11,8 +11,8 @@
      calendar itself belongs to C13/C14);
    * the quantity n of `every n <unit>` is what date_parser_t::parse accepts: an unsigned
      short, rejected when zero iff the source has the guard (Gen/SafetyGuards.src_period_zero_guard);
-   * the catch-up loop `while (*start < *date) { next = *this; ++next; if (next.start &&
-     *next.start <= *date) *this = next; else break; }` with explicit fuel (Err EOutOfFuel when
+   * the catch-up loop `while (start < date) { next = this; ++next; if (next.start and
+     next.start <= date) this = next; else break; }` with explicit fuel (Err EOutOfFuel when
      it runs out): termination of the C++ loop is the lemma that a fuel computed from the
      input suffices.
    Definitions only. *)
